@@ -161,7 +161,7 @@ func init() {
 								if f == nil || !lexical[f] {
 									continue
 								}
-								construct := ord.next("lexical lookup " + f.Name())
+								construct := ord.next("lexical lookup " + shortName(f))
 								if len(unq) > 0 && !fc.reachableFromAvoiding(dloc.B, b, unq) {
 									obs = append(obs, mkOb(c, rid, u, construct, ce, Proved, "reached only when the symbol has no package separator", true))
 								} else {
